@@ -19,6 +19,12 @@ spec/C12/CfgArea.tla     the area as a state machine: Template / LoadConfig / Se
        Trust keys given as -sf files or as a certificate-block / MBI configuration) and the configuration a tool writes from a binary FILE are
        further observations of the SAME events (Template / Export / GetConfig): the existing clauses decide (ExportFaithful, ComputedHold,
        BytesStable - the tool's bytes equal the library's for the same state -, Rotkh - against hashlib over the pool keys -, ConfigRoundTrip ...).
+ register map / alias dimension: which register FILE an area works on is itself part of the for-all over the device database.  c12_rawdb walks the alias
+       chain of every family in the RAW database.yaml files (device folder first, then each aliased device in turn; features merged as the files say - no
+       SPSDK database code); the Layout event of EVERY area logs the chain, the folders that hold the register file, the register map (names, offsets / OTP
+       indexes, widths) of each such file and the map a fresh real object exposes; CfgArea.tla picks the prescribed file (Nearest: the nearest own file - a
+       device in between with its own file is not skipped; composition law AliasComposes checked by TLC in CfgAreaMC) and CfgAreaTrace decides clause
+       RegisterMap.  The run fails as machinery unless every area - and every family that is an alias of an alias - was decided (demand_alias_reach).
 """
 import copy
 import hashlib
@@ -34,6 +40,7 @@ from lib.verdict import Verdict
 
 import c12_areas as A
 import c12_cli as CLI
+import c12_rawdb as RAW
 
 PROP = "C12"
 SPEC = "C12"
@@ -900,6 +907,26 @@ def layout_job(ident):
         return {"area": ident, "error": f"layout: {type(e).__name__}: {e}"[:300]}
 
 
+def layout_event(ad):
+    """The Layout event of an area: besides the data-consistency clauses of the extracted layout, the facts clause RegisterMap is decided from - the
+    alias chain of the family in the RAW database files, the folders that hold the register file, the register map of each such file, and the map a
+    fresh object of the real area exposes (c12_areas.map_facts)."""
+    try:
+        obj = ad.new()
+    except Exception:  # noqa: BLE001 - (refused construction is the finding of the NewObject event; an area without an object exposes no map)
+        obj = None
+    parts, notes = ad.map_facts(obj)
+    for p in parts:
+        if len(p["obs"]) >= 10000 or any(len(m) >= 10000 for m in p["files"]):
+            raise Machinery("a register map has 10000 entries or more (witness encoding of clause RegisterMap)")
+        if any(not (-2 ** 31 < e[k] < 2 ** 31) for m in p["files"] + [p["obs"]] for e in m for k in ("o", "w", "x")):
+            raise Machinery("a register map holds a number TLC cannot represent")
+    ev = {"a": "Layout", "parts": parts}
+    if notes:
+        ev["notes"] = notes
+    return ev
+
+
 def area_job(job):
     """Worker of phase 2: one area, several schedules -> layout for the spec + traces."""
     t0 = time.process_time()
@@ -911,7 +938,7 @@ def area_job(job):
         return {"area": ident, "error": f"layout: {type(e).__name__}: {e}"[:300]}
     tl = A.tla_layout(lay)
     h = sha(tl)
-    traces = [] if job.get("nolayout") else [{"id": f"{ad.key()}#layout", "lay": h, "area": ident, "ev": [{"a": "Layout"}]}]
+    traces = [] if job.get("nolayout") else [{"id": f"{ad.key()}#layout", "lay": h, "area": ident, "ev": [layout_event(ad)]}]
     for name, sched in job["scheds"]:
         r = rng(PROP, ad.key(), name)
         traces.append(run_trace(ad, lay, sched, r, f"{ad.key()}#{name}", h))
@@ -994,11 +1021,34 @@ def check_tv_output(res, rej):
         raise Machinery("a REJ line of the trace validation could not be read back")
 
 
-KEEP = {"a", "ok", "struct", "post", "yaml", "schema", "w", "seal", "size", "gaps", "eqprev", "rotkh", "crc", "bin", "verified"}
+KEEP = {"a", "ok", "struct", "post", "yaml", "schema", "w", "seal", "size", "gaps", "eqprev", "rotkh", "crc", "bin", "verified", "parts"}
 
 
 def strip_event(e):
-    return {k: x for k, x in e.items() if k in KEEP}
+    res = {k: x for k, x in e.items() if k in KEEP}
+    if "parts" in res:
+        res["parts"] = [{"chain": [{"f": c["f"]} for c in p["chain"]], "files": p["files"], "obs": p["obs"]} for p in res["parts"]]
+    return res
+
+
+def map_witness(ev, code):
+    """Witness of a failing RegisterMap clause (MapWitness of CfgArea.tla: 10000 * part + first differing position) in words."""
+    if not code or "parts" not in ev or not 0 < code // 10000 <= len(ev["parts"]):
+        return None, {}
+    p = ev["parts"][code // 10000 - 1]
+    pos = code % 10000
+    own = [c for c in p["chain"] if c["f"]]
+    w = {"part": p["name"], "file": p["file"], "chain": [f"{c['d']}{'*' if c['f'] else ''}" for c in p["chain"]], "position": pos}
+    if not own or not pos:
+        return "no-file", w
+    exp = p["files"][own[0]["f"] - 1]
+    w["prescribed_by"] = own[0]["d"]
+    w["prescribed"] = exp[pos - 1] if pos <= len(exp) else None
+    w["observed"] = p["obs"][pos - 1] if pos <= len(p["obs"]) else None
+    w["n_prescribed"], w["n_observed"] = len(exp), len(p["obs"])
+    # (for the witness only) which other file of the chain the object's map is the map of
+    w["observed_is_map_of"] = [c["d"] for c in own if p["files"][c["f"] - 1] == p["obs"]]
+    return (w["prescribed"] or w["observed"])["n"], w
 
 
 def finding_key(t, rej, names):
@@ -1026,6 +1076,14 @@ def report(v, results, rej, names):
         t, res = by_id[tid]
         a = t["area"]
         nm = names.get(res["layhash"]) or []
+        if clause == "RegisterMap":
+            name, w = map_witness(t["ev"][0], reg)
+            key = f"C12/{a['kind']}/{a['family']}/{a['rev']}/{a['sub'] or '-'}/Layout/{clause}" + (("/" + str(name).replace("/", "_").replace(" ", "_")) if name else "")
+            v.violation(key, f"{tid}: the register map of the real object is not the map of the register file the raw database prescribes "
+                             f"(alias chain {' -> '.join(w.get('chain', []))}, file {w.get('file')}): position {w.get('position')} prescribed {w.get('prescribed')} observed {w.get('observed')}",
+                        {"area": a, "trace_id": tid, "failed_event": 1, "clause": clause, "register": reg, "event": {"a": "Layout", "notes": t["ev"][0].get("notes", [])},
+                         "map": w, "steps": [], "info": res.get("info")})
+            continue
         key = f"C12/{a['kind']}/{a['family']}/{a['rev']}/{a['sub'] or '-'}/Layout/{clause}" + (("/" + str(nm[reg - 1]).replace("/", "_").replace(" ", "_")) if reg and reg <= len(nm) else "")
         v.violation(key, f"{tid}: the database content of the area violates clause {clause}" + (f" at register {nm[reg - 1]}" if reg and reg <= len(nm) else ""),
                     {"area": a, "trace_id": tid, "failed_event": 1, "clause": clause, "register": reg, "event": {"a": "Layout"}, "steps": [], "info": res.get("info")})
@@ -1067,6 +1125,40 @@ def demand_case_coverage(v, results, rej):
             table[kind]["/".join(c)] += 1
     v.extra["size_ctrl_cases_executed"] = {k: dict(sorted(x.items())) for k, x in sorted(table.items())}
     v.extra["size_ctrl_areas"] = len(want)
+
+
+def demand_alias_reach(v, results, areas):
+    """Clause RegisterMap was decided for EVERY area (each has one Layout event with the facts), and in particular for every area of every family
+    that the raw database files make an alias of an alias - the families with a device in between that owns register files among them."""
+    deep = RAW.deep_aliases()
+    offered = {(a["kind"], a["family"], a["rev"], a["sub"]) for a in areas}
+    seen, depth, owner_pos, mid_own = set(), {}, {}, {}
+    for x in results:
+        for t in x.get("traces", []):
+            if not t["id"].endswith("#layout"):
+                continue
+            ev = t["ev"][0]
+            if "parts" not in ev or not ev["parts"]:
+                raise Machinery(f"trace {t['id']}: the Layout event carries no register map")
+            a = x["area"]
+            seen.add((a["kind"], a["family"], a["rev"], a["sub"]))
+            for p in ev["parts"]:
+                n = len(p["chain"])
+                depth[n] = depth.get(n, 0) + 1
+                pos = next((i for i, c in enumerate(p["chain"], 1) if c["f"]), 0)
+                owner_pos[pos] = owner_pos.get(pos, 0) + 1
+                if n >= 3 and 1 < pos < n and len({c["f"] for c in p["chain"] if c["f"]}) > 1:
+                    mid_own.setdefault(a["family"], set()).add(f"{a['kind']}:{p['chain'][pos - 1]['d']}/{os.path.basename(p['file'])}")
+    if offered - seen:
+        raise Machinery(f"vacuous: clause RegisterMap was not decided for {len(offered - seen)} areas, e.g. {sorted(offered - seen)[:3]}")
+    lack = sorted(f for f in deep if any(a["family"] == f for a in areas) and not any(k[1] == f for k in seen))
+    if lack:
+        raise Machinery(f"vacuous: families that are an alias of an alias were not reached: {lack}")
+    if deep and any(a["family"] in deep for a in areas) and not depth.get(3, 0) + depth.get(4, 0) + depth.get(5, 0):
+        raise Machinery("vacuous: no Layout event with an alias chain of three folders although the database has such families")
+    v.extra["register_map"] = {"areas_decided": len(seen), "parts_by_chain_length": dict(sorted(depth.items())), "parts_by_position_of_the_prescribed_file": dict(sorted(owner_pos.items())),
+                               "alias_of_alias_families": sorted(f for f in deep if any(k[1] == f for k in seen)),
+                               "alias_of_alias_with_a_file_of_the_device_in_between": {f: sorted(x) for f, x in sorted(mid_own.items())}}
 
 
 TOOL_KEY_ROUTES = ("sf/asis", "sf/lower", "sf/upper", "rotcfg/asis", "rotcfg/lower", "mbicfg/lower")
@@ -1189,6 +1281,7 @@ def run(tier):
         kinds[a["kind"]] = kinds.get(a["kind"], 0) + 1
     say(f"[C12] {len(areas)} areas (kind x family x revision x sub-area): {kinds}")
     idents = [{k: a[k] for k in ("kind", "family", "rev", "sub")} for a in areas]
+    RAW.preload()          # the raw database.yaml files are read once, before the workers are forked (clause RegisterMap)
     hashes = pmap(layout_job, idents, chunksize=8)
     errs = [x for x in hashes if "error" in x]
     if errs:
@@ -1285,6 +1378,7 @@ def run(tier):
     report(v, results, rej, names)
     demand_case_coverage(v, results, rej)
     demand_tool_reach(v, results, rej, kinds)
+    demand_alias_reach(v, results, areas)
     for x in results:
         for t in x["traces"]:
             if t["id"] not in rej and t["id"].endswith("#values") and x["area"]["kind"] in ("cmpa", "xmcd", "fuses", "tz", "memcfg"):
@@ -1305,7 +1399,11 @@ def run(tier):
         "fails as machinery unless every case that exists on the layout was executed; COMMAND-LINE ROUTE (schedule `tool`): per class (kind x Root of Trust type x width of "
         "ROTKH / sub-area; XMCD quick: configuration type) the first representative of the latest revision in the quick tier, every representative in the thorough tier: "
         "template by the tool -> load; every export by the library AND by the tool from the same configuration file with `type` as written by SPSDK and in lower case "
-        "(same state, same bytes); binary -> parser -> configuration by the tool -> load; values; seal (-a); CMPA: 1..4 keys of the committed pool as -sf files "
+        "(same state, same bytes); binary -> parser -> configuration by the tool -> load; values; seal (-a); REGISTER MAP (clause RegisterMap, every area of every family in both tiers): "
+        "the alias chain of the family is walked in the raw database.yaml files (device folder first, then each aliased device in turn; features merged as the files say, no SPSDK "
+        "database code), the register file of the area is looked up in every folder of the chain, the map (names, offsets / OTP indexes, widths) of every file found and the map a "
+        "fresh real object exposes are logged, TLC picks the prescribed file (nearest own file) and compares - the run fails as machinery unless every area, and every family that is "
+        "an alias of an alias, was decided; CMPA: 1..4 keys of the committed pool as -sf files "
         "(public key / private key / certificate, PEM / DER) and as certificate-block / MBI configuration (-e) x type as written / lower / upper case, ROTKH compared "
         "with hashlib over the public numbers - the run fails as machinery unless every tool operation and every (key route, spelling) was executed; distinct_nontrivial = distinct traces (area x schedule) in which at least one state was transported through the real code (SetValues / LoadConfig / Parse)")
     v.extra["checker_cmd"] = "tlc2.TLC CfgAreaMC (lemmas), CfgAreaGen -simulate (schedules), CfgAreaTrace (batch trace validation, one JVM per chunk; library and tool observations alike)"
@@ -1333,6 +1431,10 @@ ASSUMPTIONS = [
     "documented sizes: PFR pages 512, ROMCFG 304, CMAC table 128, BCA 64, FCF 16, FCB 512 bytes, TrustZone 4 bytes per preset register (reference manuals); gap fill value "
     "must be one constant byte, which one is not asserted",
     "registers whose JSON description overlaps another register (CMAC table) are asserted through byte stability of the export only, not per register",
+    "clause RegisterMap: restricted data / add-on folders outside spsdk/data are not part of the raw walk (none is configured in this environment); the map compares names, byte "
+    "offsets (not of fuse groups: they have no binary form), widths and the OTP index of fuses - bit-fields, presets and enums of the prescribed file are compared only through the "
+    "other clauses (which read the file SPSDK's database names); registers SPSDK drops by its own documented rules (repeated name, repeated non-zero offset) are dropped from the "
+    "prescribed map by the same extraction that builds the layouts",
     "command-line route: `pfr generate-binary` is called with --ignore (the brick-condition rules of PFRC are no part of the property); the `type` of a PFR / IFR "
     "configuration is respelled in lower and upper case only (SPSDK writes CMPA / CFPA / ROMCFG / CMACTABLE, its own test data use cmpa; the mixed-case `CMACTable` of "
     "the -s option is refused by `ifr generate-binary` as a configuration value - not settled, not asserted); tools without a revision option (nxpimage bca / fcf / "
@@ -1429,6 +1531,19 @@ def canary(v, tiny_tla, tiny_file, behs):
     bad_lay["regs"][gi]["declw"] = bad_lay["regs"][gi]["subsw"] + 32
     cfile = write_layouts(tiny_tla + [bad_lay], "c12-canary-layouts.json")
     lay_traces = [{"id": 100 + k, "lay": k + 1, "ev": [{"a": "Layout"}]} for k in range(len(tiny_tla) + 1)]
+    # clause RegisterMap: a family that is an alias of an alias whose intermediate device has its own register file - an object that works on the map of
+    # that file is accepted, an object that works on the map of the BASE device (the device in between skipped), a map with one OTP index moved, a
+    # chain in which no folder holds the file are rejected
+    m_mid = [{"n": "BOOT", "o": 0, "w": 32, "x": -1}, {"n": "USB_ID", "o": 4, "w": 32, "x": -1}, {"n": "GP3", "o": 8, "w": 32, "x": 59}]
+    m_base = [{"n": "BOOT", "o": 0, "w": 32, "x": -1}, {"n": "GP3", "o": 8, "w": 32, "x": 36}]
+    chain = [{"f": 0}, {"f": 1}, {"f": 2}]
+    moved = json.loads(json.dumps(m_mid))
+    moved[2]["x"] = 36
+    map_cases = [(200, [{"chain": chain, "files": [m_mid, m_base], "obs": m_mid}], None), (201, [{"chain": chain, "files": [m_mid, m_base], "obs": m_base}], 10002),
+                 (202, [{"chain": chain, "files": [m_mid, m_base], "obs": m_mid}, {"chain": chain[1:], "files": [m_mid, m_base], "obs": moved}], 20003),
+                 (203, [{"chain": [{"f": 0}, {"f": 0}], "files": [], "obs": m_mid}], 10000), (204, [{"chain": [{"f": 1}], "files": [m_base], "obs": m_base}], None),
+                 (205, [{"chain": chain, "files": [m_mid, m_base], "obs": m_mid[:2]}], 10003)]
+    lay_traces += [{"id": i, "lay": 1, "ev": [{"a": "Layout", "parts": parts}]} for i, parts, _ in map_cases]
     rej, cres = tlc.tv(SPEC, "CfgAreaTrace", [good, good2, good3] + [t for t, _ in bads] + lay_traces, env={"LAYOUT_FILE": cfile}, heap="4g")
     check_tv_output(cres, rej)
     appl = sorted((x[1], x[2]) for x in cres.tuples("APPL") if x[0] == 50)
@@ -1438,12 +1553,18 @@ def canary(v, tiny_tla, tiny_file, behs):
     want = {k: c for k, (_, c) in enumerate(bads, 1)}
     got = {k: x[3] for k, x in rej.items()}
     lays = [tuple(x[:2]) for x in cres.tuples("LAY")]
+    maps = sorted(tuple(x[:3]) for x in cres.tuples("LAY") if x[1] == "RegisterMap")
+    if maps != sorted((i, "RegisterMap", code) for i, _, code in map_cases if code):
+        raise Machinery(f"canary failed: clause RegisterMap fired as {maps} on the cases {[(i, c) for i, _, c in map_cases]}")
+    lays = [x for x in lays if x[1] != "RegisterMap"]
     if got != want or lays != [(100 + len(tiny_tla), "GroupsConsistent")]:
         raise Machinery(f"canary failed: rejected {rej}, layout findings {lays}; expected exactly {want} and GroupsConsistent on the inconsistent copy only")
     v.extra["canary"] = ("a behaviour generated by the spec (states included) is accepted as a trace; the same trace with one flipped state bit / a wrong export size / "
                          "one flipped bit of the decoded binary / a false gap fact / an announced wrong size that survives in the object / a second export of the same state (the tool after "
                          "the library) with other bytes is rejected at clauses " + ", ".join(want.values()) +
-                         "; the configurations of a generated behaviour that write the size / control bit-fields are classified by the trace form exactly as generated")
+                         "; the configurations of a generated behaviour that write the size / control bit-fields are classified by the trace form exactly as generated"
+                         "; clause RegisterMap: an alias of an alias whose object works on the map of the intermediate device's own file is accepted, on the map of the base "
+                         "device / with one OTP index moved / with a register missing / with no file in the chain is rejected at the right position")
 
 
 def probe_hidden(v):
@@ -1476,7 +1597,8 @@ def replay(path):
     tl = A.tla_layout(lay)
     name = w["trace_id"].split("#", 1)[1]
     if name == "layout":
-        t = {"id": w["trace_id"], "lay": 1, "area": ident, "ev": [{"a": "Layout"}]}
+        t = {"id": w["trace_id"], "lay": 1, "area": ident, "ev": [layout_event(ad)]}
+        lev = t["ev"][0]
     else:
         t = run_trace(ad, lay, w["steps"], rng(PROP, ad.key(), name), w["trace_id"], 1)
     for e in t["ev"]:
@@ -1490,6 +1612,9 @@ def replay(path):
     if lays:
         say(f"VIOLATION property=C12 replay={path}")
         for x in lays:
+            if x[1] == "RegisterMap":
+                say(f"  key={body.get('key')}: clause RegisterMap - the real object does not work on the register map the raw database files prescribe: {json.dumps(map_witness(lev, x[2])[1])[:900]}")
+                continue
             say(f"  key={body.get('key')}: the database content violates clause {x[1]}" + (f" at register {lay['regs'][x[2] - 1]['name']}" if x[2] else ""))
         return 1
     if rej:
